@@ -8,14 +8,17 @@ sys.path.insert(0, os.path.dirname(os.path.dirname(os.path.abspath(__file__))))
 
 def main():
     case = json.load(open(sys.argv[1]))
-    from simcheck.pipeline import run_pipeline
+    from simcheck.pipeline import TimeBudgetProbe, run_pipeline
 
     out = os.dup(1)
-    run, res = run_pipeline(case, [])
+    run, res = run_pipeline(case, [TimeBudgetProbe()])
     payload = {k: res[k] for k in ("digest", "rc", "iterations", "executions", "draws", "draw_digest",
                                    "test_file_sha", "sim_ns")}
     payload["test_file_len"] = len(run.test_file or b"")
     payload["violation"] = res["violation"]
+    payload["probes"] = res["probes"]
+    payload["timeout_codes"] = sorted(run.timeout_codes)
+    payload["ok_codes"] = sorted(run.ok_codes)
     if case.get("log_draws"):
         payload["draw_log"] = run.draw_log
     if case.get("log_execs"):
